@@ -73,8 +73,13 @@ def Err.name : Err → String
   | .nonCanonical => "noncanonical" | .invalid => "invalid"
 
 /-- `n` bytes from the front, or `none` when the input is shorter (`io.ReadFull` failing). -/
-def takeN (n : Nat) (b : Bytes) : Option (Bytes × Bytes) :=
-  if n ≤ b.length then some (b.take n, b.drop n) else none
+def takeN : Nat → Bytes → Option (Bytes × Bytes)
+  | 0, b => some ([], b)
+  | _ + 1, [] => none
+  | n + 1, x :: b =>
+    match takeN n b with
+    | some (h, t) => some (x :: h, t)
+    | none => none
 
 /-- `cbg.CborReadHeader`: major type, argument, rest. Non-minimal arguments are rejected. -/
 def readHdr : Bytes → Except Err (Nat × Nat × Bytes)
